@@ -65,12 +65,13 @@ static bool is_exotic(const Cfg &cfg){ return cfg.custom.compare(0, 7, "exotic:"
 static int exotic_variant(const Cfg &cfg){ return atoi(cfg.custom.c_str() + 7); }
 static Q exotic_moment(int variant, int k){ // int_{-1}^{1} t^k rho(t) dt
     auto m = [](int q)->Q{ return (q % 2 == 1) ? (Q) 0 : (Q) 2 / (Q)(q + 1); };
+    if (variant == 3) return 2 * m(k) + m(k + 1);        // rho = 2 + t (bounded away from zero: admits a negative shift)
     return (variant == 1) ? m(k) + m(k + 1) / 2 : m(k + 2) - m(k) / 5;
 }
 static void make2(TasmanianSparseGrid &g, const Cfg &cfg){
     if (!is_exotic(cfg)){ make(g, cfg); return; }
     int v = exotic_variant(cfg);
-    TasGrid::CustomTabulated ct = (v == 1) ? TasGrid::getExoticQuadrature(6, 0.0, [](double x)->double{ return 1.0 + 0.5 * x; }, 60, "exotic 1+x/2", false)
+    TasGrid::CustomTabulated ct = (v == 3) ? TasGrid::getExoticQuadrature(6, -0.5, [](double x)->double{ return 2.0 + x; }, 60, "exotic 2+x", false) : (v == 1) ? TasGrid::getExoticQuadrature(6, 0.0, [](double x)->double{ return 1.0 + 0.5 * x; }, 60, "exotic 1+x/2", false)
                                            : TasGrid::getExoticQuadrature(6, 0.5, [](double x)->double{ return x * x - 0.2; }, 60, "exotic x^2-1/5", true);
     g.makeGlobalGrid(cfg.dims, cfg.outs, cfg.depth, cfg.type, std::move(ct), cfg.aw, cfg.limits);
     if (!cfg.ta.empty()) g.setDomainTransform(cfg.ta, cfg.tb);
@@ -378,7 +379,7 @@ static std::vector<Unit> units(){
     for(auto r : global_rules()) for(int d=1; d<=(th?3:2); d++) u.push_back({F_GLOBAL, r, d, 0});
     for(auto r : {rule_leja, rule_rleja, rule_rlejashifted, rule_maxlebesgue, rule_minlebesgue, rule_mindelta}) for(int d=1; d<=(th?3:2); d++) u.push_back({F_SEQUENCE, r, d, 0});
     for(int d=1; d<=(th?3:2); d++) u.push_back({F_FOURIER, rule_fourier, d, 0});
-    if (g_prop == "C02") for(int v : {1, 2}) for(int d=1; d<=2; d++) u.push_back({F_GLOBAL, rule_customtabulated, d, 100 + v}); // exotic quadrature (order field carries the variant)
+    if (g_prop == "C02") for(int v : {1, 2, 3}) for(int d=1; d<=2; d++) u.push_back({F_GLOBAL, rule_customtabulated, d, 100 + v}); // exotic quadrature (order field carries the variant)
     if (g_prop == "C03"){
         for(auto r : {rule_localp, rule_semilocalp, rule_localp0, rule_localpb}) for(int order : {-1, 0, 1, 2, 3, 4}) for(int d=1; d<=3; d++){ if (r == rule_semilocalp && order >= 0 && order < 2) continue; if (!th && d == 3 && !(order == 1 || order == 2)) continue; u.push_back({F_LOCALP, r, d, order}); } // 3-D: the Kronecker surplus algorithm
         for(int order : {1, 3}) for(int d=1; d<=2; d++) u.push_back({F_WAVELET, rule_wavelet, d, order});
